@@ -91,3 +91,65 @@ func init() {
 }
 
 var extraRegs []func(in *Interp)
+
+// Pond models github.com/alitto/pond.WorkerPool: Submit(f) = go f(); StopAndWait joins.
+type Pond struct{ wg WaitGroup }
+
+func init() {
+	extraRegs = append(extraRegs, func(in *Interp) {
+		in.reg("github.com/alitto/pond.New", func(th *Thread, fn *ssa.Function, a []Value) Value {
+			th.stub("pond.New: Submit(f) = go f()")
+			return ptrTo(Native{&Pond{}})
+		})
+		pondOf := func(v Value) *Pond { return (*(v.(*Value))).(Native).X.(*Pond) }
+		in.reg("(*github.com/alitto/pond.WorkerPool).Submit", func(th *Thread, fn *ssa.Function, a []Value) Value {
+			p := pondOf(a[0])
+			task := a[1]
+			th.wgAdd(&p.wg, 1)
+			th.ex.spawn(&HostFunc{Name: "pond-task", F: func(t2 *Thread, _ []Value) Value {
+				defer func() {
+					// the task's panic (if any) propagates; the counter is released either way
+					t2.wgAdd(&p.wg, -1)
+				}()
+				t2.call(nil, 0, task, nil)
+				return nil
+			}}, nil, "worker")
+			return nil
+		})
+		in.reg("(*github.com/alitto/pond.WorkerPool).StopAndWait", func(th *Thread, fn *ssa.Function, a []Value) Value {
+			th.wgWait(&pondOf(a[0]).wg)
+			return nil
+		})
+	})
+}
+
+func init() {
+	extraRegs = append(extraRegs, func(in *Interp) {
+		in.reg("github.com/imdario/mergo.Merge", func(th *Thread, fn *ssa.Function, a []Value) Value {
+			dst := a[0].(Iface)
+			src := a[1].(Iface)
+			dp, ok := dst.V.(*Value)
+			if !ok || dp == nil {
+				panic(unsupported("mergo.Merge: dst %v", dst.T))
+			}
+			dm, ok1 := (*dp).(*Map)
+			sm, ok2 := src.V.(*Map)
+			if !ok1 || !ok2 {
+				panic(unsupported("mergo.Merge on non-map values %v <- %v", dst.T, src.T))
+			}
+			th.stub("mergo.Merge: map union with override")
+			if dm == nil {
+				dm = newMap()
+				*dp = dm
+			}
+			if sm != nil {
+				for _, e := range sm.entries {
+					if !e.deleted {
+						th.mapUpdate(dm, e.k, e.v)
+					}
+				}
+			}
+			return Iface{}
+		})
+	})
+}
